@@ -121,7 +121,8 @@ class GroupScenario:
         self.fetch_req = {}  # (conn label, corr) -> (tick written, {(topic, partition): fetch offset})
         self.snap1 = self.snap2 = None
         self.stop_flag = False
-        self.kgates = {}
+        self.stop_tasks = {}  # member -> task running a stop() placed by the explorer (C19)
+        self.stop_ctx = {}
 
     def fail(self, oracle, sig, msg):
         self.violations.append((oracle, sig, msg))
@@ -176,6 +177,14 @@ class GroupScenario:
             for i, c in self.consumers.items():
                 if self.alive.get(i) and i not in self.stopped:
                     out.append(Alt(f"kill:c{i}", "k", lambda i=i: self.kill(i)))
+        if p.get("stop_alt") and ch.remaining("k") > 0 and not self.stop_tasks and not self.killed:
+            for i, c in self.consumers.items():
+                if i not in self.stopped and (self.alive.get(i) or p.get("stop_during_start")):
+                    out.append(Alt(f"stop:c{i}", "k", lambda i=i: self.begin_stop(i)))
+        if p.get("cluster_modes") and quiescent and ch.remaining("f") > 0 and not getattr(self, "_mode", None):
+            for n in self.cluster.nodes:
+                out.append(Alt(f"broker-down:{n}", "f", lambda n=n: self.set_mode(("down", n))))
+            out.append(Alt("blackhole", "f", lambda: self.set_mode(("blackhole",))))
         if p.get("coord_move") and quiescent and ch.remaining("f") > 0 and not getattr(self, "_moved", False):
             out.append(Alt("coord-move:keep", "f", lambda: self.move_coordinator(False)))
             out.append(Alt("coord-move:lose", "f", lambda: self.move_coordinator(True)))
@@ -186,6 +195,14 @@ class GroupScenario:
         self.alive[i] = False
         self.rec("killed", i)
         self.world.loop.kill(f"c{i}")
+
+    def set_mode(self, mode):
+        self._mode = mode
+        self.rec("cluster-mode", None, mode)
+        if mode[0] == "down":
+            self.cluster.broker_down(mode[1])
+        else:
+            self.cluster.blackhole = True  # every broker keeps accepting bytes and never answers
 
     def move_coordinator(self, lose):
         self._moved = True
@@ -208,7 +225,7 @@ class GroupScenario:
         strategy = tuple(table[a] for a in spec.get("assignors", ["range"]))
         p = self.p
         return AIOKafkaConsumer(
-            bootstrap_servers="b0:9000", client_id=f"c{i}", group_id="g", auto_offset_reset="earliest",
+            bootstrap_servers="b0:9000", client_id=f"c{i}", group_id="g" if spec.get("group", True) else None, auto_offset_reset="earliest",
             enable_auto_commit=spec.get("auto_commit", True), auto_commit_interval_ms=p.get("auto_commit_interval_ms", 400),
             session_timeout_ms=int(SESSION * 1000), heartbeat_interval_ms=int(HEARTBEAT * 1000),
             rebalance_timeout_ms=int(REBALANCE * 1000), request_timeout_ms=p.get("request_timeout_ms", 4000),
@@ -242,7 +259,11 @@ class GroupScenario:
                     await world.gate(f"as{i}")
                 scn.rec("assign-end", i)
 
-        if spec.get("pattern"):
+        if spec.get("assign"):
+            from aiokafka.structs import TopicPartition
+
+            c.assign([TopicPartition(t, pi) for t, pi in spec["assign"]])
+        elif spec.get("pattern"):
             c.subscribe(pattern=spec["pattern"], listener=L())
         else:
             c.subscribe(spec.get("topics", ["t"]), listener=L())
@@ -270,24 +291,60 @@ class GroupScenario:
                     batch = await c.getmany(timeout_ms=300, max_records=p.get("poll_max_records"))
                 except Exception as e:  # noqa: BLE001
                     self.rec("poll-exc", i, type(e).__name__, str(e)[:80])
+                    if i in self.stop_tasks:
+                        break  # stop() was placed by the explorer: the pending call was failed, the program ends
                     await asyncio.sleep(0.1)
                     continue
                 for tp, recs in batch.items():
                     for r in recs:
                         self.rec("deliver", i, (tp.topic, tp.partition), r.offset)
+                if i in self.stop_tasks:
+                    break
+                if batch and spec.get("commit_after_poll"):
+                    # the usual application pattern: process what was returned, then commit() without arguments
+                    try:
+                        await c.commit()
+                        self.rec("commit-ok", i)
+                    except Exception as e:  # noqa: BLE001 - CommitFailedError etc. are legitimate outcomes
+                        self.rec("commit-exc", i, type(e).__name__)
         finally:
             for t in extra:
                 t.cancel()
+        if i in self.stop_tasks:
+            await asyncio.wait([self.stop_tasks[i]])
+            return
+        await self.do_stop(i, c)
+
+    async def do_stop(self, i, c):
+        world = self.world
         t0 = world.now()
+        g = self.cluster.groups.get("g")
+        co = c._coordinator
+        self.stop_ctx[i] = {"t0": t0, "f_spent": world.chooser.spent["f"], "generation": getattr(co, "generation", None),
+                            "member_id": getattr(co, "member_id", None), "group_state": g.state if g else None,
+                            "coordinator_up": self.cluster.up.get(self.cluster.coordinator, False) and not self.cluster.blackhole}
         self.rec("stop-begin", i)
         self.stopped[i] = None
         try:
             await c.stop()
         except Exception as e:  # noqa: BLE001
-            self.rec("stop-exc", i, type(e).__name__)
+            self.rec("stop-exc", i, type(e).__name__, str(e)[:80])
         self.stopped[i] = world.now() - t0
         self.alive[i] = False
-        self.rec("stop-end", i)
+        self.rec("stop-end", i, self.stopped[i])
+        if self.p.get("probe_after_stop"):
+            for name, call in (("getone", lambda: c.getone()), ("getmany", lambda: c.getmany(timeout_ms=10))):
+                try:
+                    await asyncio.wait_for(call(), timeout=1.0)
+                    self.rec("after-stop", i, name, "returned")
+                except asyncio.TimeoutError:
+                    self.rec("after-stop", i, name, "hung")
+                except Exception as e:  # noqa: BLE001
+                    self.rec("after-stop", i, name, type(e).__name__)
+
+    def begin_stop(self, i):
+        c = self.consumers[i]
+        self.stop_tasks[i] = self.world.spawn(f"c{i}", self.do_stop, i, c)
 
     async def committer(self, i, c):
         while True:
@@ -347,6 +404,8 @@ class GroupScenario:
             await asyncio.sleep(0.25)
         world.frozen = True
         self.rec("frozen", None)
+        if p.get("stop_alt") and self.stop_tasks:
+            await asyncio.wait(list(self.stop_tasks.values()), timeout=p.get("stop_bound", 30.0))
         while world.now() < max(until, world.last_dev_t) + p.get("h_conv", H_CONV):
             await asyncio.sleep(0.25)
         self.snap1 = self.snapshot()
